@@ -150,7 +150,12 @@ func genPairSpecials[T num](tab []*kop[T], sp []T) func(g *vlib.G) {
 				}
 			}
 			eps := resultEps[T](op.name)
-			for _, n := range vlib.Pick(g, []int{2, 3, 5, 8, 9, 17}, []int{2, 3, 4, 5, 7, 8, 9, 12, 16, 17, 25, 33}) {
+			lens := vlib.Pick(g, []int{2, 3, 5, 8, 9, 17}, []int{2, 3, 4, 5, 7, 8, 9, 12, 16, 17, 25, 33})
+			if isCplx[T]() {
+				// the complex norms have no assembly: shorter sweep
+				lens = vlib.Pick(g, []int{2, 3, 5, 9}, []int{2, 3, 5, 8, 9, 17})
+			}
+			for _, n := range lens {
 				for _, inc := range incSets {
 					for _, pl := range []int{n % 8, plEnd} {
 						n, inc, pl := n, inc, pl
